@@ -1,4 +1,5 @@
 import Sentinel.Lemmas.Breaker
+import Sentinel.Lemmas.BreakerReload
 /-!
 # C03 — Circuit breaker trips, blocks and recovers exactly as specified
 (property theorems only; helper lemmas live in `Sentinel/Lemmas/Breaker.lean`)
@@ -739,6 +740,153 @@ theorem open_rejects_until_history (ops : Rule → WinOps W) (s : Sys W) (os : L
 
 end history
 
+/-! ## 5d. reloads: a kept breaker keeps rejecting, a replaced one admits; trips over an inherited window -/
+
+section reloads
+variable {W : Type}
+
+/-- side condition on one op of a continuation: a (re)load that concerns the breaker's resource keeps breaker `k`
+    (some rule of the new list picks it as its equal old breaker — `keptIds` follows the real builder) -/
+def keepsStep (k : Nat) (res : String) (s : Sys W) : Op → Prop
+  | .load rs => k ∈ keptIds rs s.brs
+  | .loadRes x rs => x ≠ res ∨ k ∈ keptIds rs (s.brs.filter fun b => b.rule.res == x)
+  | _ => True
+
+/-- the side condition along a whole continuation (evaluated on the states the history really reaches) -/
+def KeepsAlong (ops : Rule → WinOps W) (k : Nat) (res : String) : Sys W → List Op → Prop
+  | _, [] => True
+  | s, o :: os => keepsStep k res s o ∧ KeepsAlong ops k res (step ops s o).1 os
+
+/-- a reload that keeps the breaker leaves it open with the same deadline -/
+theorem reload_keeps_open (ops : Rule → WinOps W) (s : Sys W) (o : Op) (k : Nat) (res : String) (D : Nat)
+    (h : OpenUntil k res D s.brs) (inv : IdInv s) (hk : keepsStep k res s o)
+    (hload : (∃ rs, o = .load rs) ∨ ∃ x rs, o = .loadRes x rs) : OpenUntil k res D (step ops s o).1.brs := by
+  obtain ⟨b, hb, h1, h2, h3, h4⟩ := h
+  rcases hload with ⟨rs, rfl⟩ | ⟨x, rs, rfl⟩
+  · obtain ⟨b', hb', hid, hmem⟩ := build_keeps ops s.now rs s.brs s.next k hk
+    have : b' = b := List.inj_on_of_nodup_map inv.nd hb' hb (by rw [hid, h1])
+    subst this
+    exact ⟨b', hmem, h1, h2, h3, h4⟩
+  · show OpenUntil k res D (s.brs.filter (fun b => b.rule.res != x) ++ build ops s.now rs (s.brs.filter fun b => b.rule.res == x) s.next)
+    rcases hk with hx | hk
+    · refine ⟨b, List.mem_append_left _ (List.mem_filter.mpr ⟨hb, ?_⟩), h1, h2, h3, h4⟩
+      simp only [bne_iff_ne, ne_eq, h2]
+      exact fun e => hx e.symm
+    · obtain ⟨b', hb', hid, hmem⟩ := build_keeps ops s.now rs _ s.next k hk
+      have : b' = b := List.inj_on_of_nodup_map inv.nd (List.mem_filter.mp hb').1 hb (by rw [hid, h1])
+      subst this
+      exact ⟨b', List.mem_append_right _ hmem, h1, h2, h3, h4⟩
+
+/-- **open_rejects_until (history form, with reloads).**  Once a breaker of a resource is open with deadline `D`,
+    then along *any* continuation whose clock readings stay below `D` — requests to any resource, stragglers,
+    probes and rollbacks of other breakers, **and any number of `LoadRules` / `LoadRulesOfResource` calls that
+    keep the breaker** (`KeepsAlong`: each reload concerning its resource has a rule that picks it as its equal
+    old breaker; reloads of other resources are unconstrained) — every request to the resource is rejected with
+    a circuit-breaking block and the breaker is still open with the same deadline at the end. -/
+theorem open_rejects_until_reloads (ops : Rule → WinOps W) (s : Sys W) (os : List Op) (k : Nat) (res : String) (D : Nat)
+    (h : OpenUntil k res D s.brs) (hnow : s.now < D) (hclk : ∀ t, Op.clock t ∈ os → t < D)
+    (inv : IdInv s) (hk : KeepsAlong ops k res s os) :
+    OpenUntil k res D (run ops s os).1.brs ∧
+      List.Forall₂ (fun o out => ∀ id n, o = Op.entry id res n → ∃ j, out.dec = some (some j)) os (run ops s os).2 := by
+  induction os generalizing s with
+  | nil => exact ⟨h, List.Forall₂.nil⟩
+  | cons o os ih =>
+    obtain ⟨hk1, hk2⟩ := hk
+    have hstep : OpenUntil k res D (step ops s o).1.brs ∧
+        (∀ id n, o = .entry id res n → ∃ j, (step ops s o).2.dec = some (some j)) := by
+      cases o with
+      | clock t => exact step_keeps_open ops s _ k res D h hnow (fun rs => ⟨by simp, fun x => by simp⟩)
+      | entry id r n => exact step_keeps_open ops s _ k res D h hnow (fun rs => ⟨by simp, fun x => by simp⟩)
+      | exit id e => exact step_keeps_open ops s _ k res D h hnow (fun rs => ⟨by simp, fun x => by simp⟩)
+      | load rs => exact ⟨reload_keeps_open ops s _ k res D h inv hk1 (Or.inl ⟨rs, rfl⟩), fun id n hid => by cases hid⟩
+      | loadRes x rs =>
+        exact ⟨reload_keeps_open ops s _ k res D h inv hk1 (Or.inr ⟨x, rs, rfl⟩), fun id n hid => by cases hid⟩
+    have hnow' : (step ops s o).1.now < D := by
+      rw [step_now]
+      cases o with
+      | clock t => exact hclk t (List.mem_cons_self ..)
+      | entry id r n => exact hnow
+      | exit id e => exact hnow
+      | load rules => exact hnow
+      | loadRes x rules => exact hnow
+    obtain ⟨i1, i2⟩ := ih (step ops s o).1 hstep.1 hnow' (fun t ht => hclk t (List.mem_cons_of_mem _ ht))
+      (step_idInv ops s o inv) hk2
+    simp only [run]
+    exact ⟨i1, List.Forall₂.cons hstep.2 i2⟩
+
+/-- **reload_replaces_admits** (the complementary, as-is fact; C14 records it for modified rules).  If a reload of
+    the resource lists no rule `eqv` to the rule of any of its old breakers, every breaker of the resource afterwards
+    is a new, Closed one — so the very next request is admitted, even if an old breaker was Open with its deadline
+    still ahead. -/
+theorem reload_replaces_admits (ops : Rule → WinOps W) (s : Sys W) (res : String) (rules : List Rule) (o : Op)
+    (ho : o = .load rules ∨ o = .loadRes res rules)
+    (hne : ∀ c ∈ s.brs, c.rule.res = res → ∀ r ∈ rules, c.rule.eqv r = false) (id : Nat) :
+    (∀ b ∈ (step ops s o).1.brs, b.rule.res = res → b.st = .closed) ∧
+      (doEntry (step ops s o).1 id res).2.dec = some none := by
+  have hall : ∀ b ∈ (step ops s o).1.brs, b.rule.res = res → b.st = .closed := by
+    intro b hb hres
+    rcases ho with rfl | rfl
+    · rcases build_mem_eqv ops s.now rules s.brs s.next b hb with ⟨hold, r, hr, he⟩ | ⟨hc, _⟩
+      · rw [hne b hold hres r hr] at he; cases he
+      · exact hc
+    · have hb' : b ∈ s.brs.filter (fun b => b.rule.res != res) ++
+          build ops s.now rules (s.brs.filter fun b => b.rule.res == res) s.next := hb
+      rcases List.mem_append.mp hb' with hf | hbuild
+      · have := (List.mem_filter.mp hf).2
+        simp [hres] at this
+      · rcases build_mem_eqv ops s.now rules _ s.next b hbuild with ⟨hold, r, hr, he⟩ | ⟨hc, _⟩
+        · rw [hne b (List.mem_filter.mp hold).1 hres r hr] at he; cases he
+        · exact hc
+  exact ⟨hall, (entry_pass_iff _ id res).1.mpr fun b hb hres => Or.inl (hall b hb hres)⟩
+
+end reloads
+
+/-! ### the trip condition over an inherited window -/
+
+/-- what a completion adds to the counters: `total` 1, `bad` 1 iff slow (resp. failed) -/
+def completion (r : Rule) (rt : Nat) (err : Bool) : Cnt := { bad := if isBad r rt err = true then 1 else 0, total := 1 }
+
+/-- counters of rule `r` over a history at `now`: the completions whose bucket lies in the last `n` aligned buckets -/
+def windowOf (r : Rule) (h : Hist) (now : Nat) : Cnt := refW r.L h (winLo r.n r.L now) (cbs r.L now)
+
+/-- **trip_iff_window.**  For a breaker whose leap array represents the history `b2.w` (`RelB`: established by
+    `LoadRules`, preserved by every op incl. reloads — `run_rel`), a completion while Closed opens it iff the
+    completions of `b2.w` plus this one that fall into the last `n` aligned buckets number at least
+    `MinRequestAmount` and satisfy the trip predicate: the `refines_abstract` trip clause made explicit. -/
+theorem trip_iff_window {now0 : Nat} {b1 : Brk (Arr Cnt)} {b2 : Brk Hist} (rel : RelB now0 b1 b2)
+    (now rt : Nat) (err : Bool) (hle : now0 ≤ now) (h0 : 0 < now) (hc : b1.st = .closed) :
+    (onComplete laOps b1 now rt err).1.st = .opened ↔
+      (b1.rule.minReq ≤ (windowOf b1.rule (b2.w ++ [(now, completion b1.rule rt err)]) now).total ∧
+       b1.rule.reached (windowOf b1.rule (b2.w ++ [(now, completion b1.rule rt err)]) now).bad
+         (windowOf b1.rule (b2.w ++ [(now, completion b1.rule rt err)]) now).total = true) := by
+  unfold windowOf completion
+  obtain ⟨a', tot, hr1, hr2, _⟩ := record_refines b1.rule now0 now b1.w b2.w
+    { bad := if isBad b1.rule rt err = true then 1 else 0, total := 1 } rel.w hle h0
+  have habs := abstract_record b1.rule b2.w now { bad := if isBad b1.rule rt err = true then 1 else 0, total := 1 } h0
+  rw [habs] at hr2
+  simp only [Option.some.injEq, Prod.mk.injEq, true_and] at hr2
+  rw [hr2]
+  exact (opens_iff laOps b1 now rt err a' tot hc hr1).1
+
+/-- **inherited_window_trip_iff.**  A breaker generated on the statistic of a stat-reusable predecessor
+    (`new…CircuitBreakerWithStat`: exactly the breaker `build` creates, on both machines) trips over the *inherited*
+    window: its completions are judged against the donor's completions still inside the last `n` buckets plus its
+    own, with the new rule's `MinRequestAmount` and trip predicate. -/
+theorem inherited_window_trip_iff {now0 : Nat} {c1 : Brk (Arr Cnt)} {c2 : Brk Hist} (rel : RelB now0 c1 c2)
+    (r : Rule) (hsr : c1.rule.statReusable r = true) (id now rt : Nat) (err : Bool) (hle : now0 ≤ now) (h0 : 0 < now) :
+    RelB now0 ({ id := id, rule := r, w := c1.w } : Brk (Arr Cnt)) ({ id := id, rule := r, w := c2.w } : Brk Hist) ∧
+    ((onComplete laOps ({ id := id, rule := r, w := c1.w } : Brk (Arr Cnt)) now rt err).1.st = .opened ↔
+      (r.minReq ≤ (windowOf r (c2.w ++ [(now, completion r rt err)]) now).total ∧
+       r.reached (windowOf r (c2.w ++ [(now, completion r rt err)]) now).bad
+         (windowOf r (c2.w ++ [(now, completion r rt err)]) now).total = true)) := by
+  obtain ⟨g1, g2⟩ := geometry_of_statReusable hsr
+  have hw := rel.w
+  rw [g1, g2] at hw
+  have hrel : RelB now0 ({ id := id, rule := r, w := c1.w } : Brk (Arr Cnt)) ({ id := id, rule := r, w := c2.w } : Brk Hist) :=
+    ⟨rfl, rfl, rfl, rfl, rfl, hw⟩
+  exact ⟨hrel, trip_iff_window hrel now rt err hle h0 rfl⟩
+
+
 /-! ## 6. non-vacuity: a concrete history on the code-shaped machine (evaluated by `decide`) -/
 
 /-- error-ratio-like rule: trips when `2·bad ≥ total`, 2 buckets of 500 ms, timeout 100 ms -/
@@ -771,6 +919,18 @@ theorem halfopen_admits_unbounded_witness :
       [.entry 1 "r", .exit 1 true, .entry 2 "r", .exit 2 true, .clock 1100,
        .entry 3 "r", .entry 4 "r", .entry 5 "r"]).2.map (·.dec)) =
     [some none, none, some none, none, none, some none, some none, some none] := by
+  decide
+
+/-- an Open breaker survives an identical reload (and a reload of another resource) and keeps rejecting; a reload with a
+    modified rule replaces it by a Closed one and the next request passes (evaluated on the code-shaped machine) -/
+example :
+    ((run laOps (demoSys 0)
+      [.entry 1 "r", .exit 1 true, .entry 2 "r", .exit 2 true,          -- opens at 1000, deadline 1100
+       .load [demoRule 0], .entry 3 "r",                                  -- equal rule: breaker 0 kept, still rejecting
+       .loadRes "q" [], .clock 1050, .entry 4 "r",
+       .loadRes "r" [{ demoRule 0 with minReq := 3 }], .entry 5 "r"]      -- modified rule: new Closed breaker, admitted
+      ).2.map (·.dec)) =
+    [some none, none, some none, none, none, some (some 0), none, none, some (some 0), none, some none] := by
   decide
 
 end Sentinel.C03
